@@ -48,6 +48,26 @@ NEEDS = {
  "C17-c": "interval fetch through the string-encoded fast path when the label list of the intervals' StringEncoding differs from the .fai rows in order or content (sorted labels, a subset, Genome.from_file(sort_names=True)): the per-call index table is replaced by one in file order",
  "C17-d": "a record with exactly ONE sequence line fetched with idx[name], the result KEPT, then another whole contig fetched: the reused read block is returned as a view, the earlier result silently turns into bytes of the later one",
  "C20-b": "an in-memory EncodedRaggedArray with at least one '+'-signed number and NO negative number passed to str_to_int: results stay right, the caller's array is zeroed at the sign",
+ "C12-e": "a contig whose group is still open at the end of a chunk and is continued by a following chunk that holds nothing but that contig (a contig spanning three or more chunks): everything the contig received earlier is dropped",
+ "C12-f": "a genome that already ignores contigs (Genome.from_file on a chrom.sizes file with '_' names, or a filter_function) passed through with_ignored_added([...]), and data naming a previously ignored contig: the earlier ignore list is forgotten, the entries are delivered or a sort-order GenomeError is raised on compatible data",
+ "C03-e": "np.concatenate of lazily read delimited tables of which at least one is a row selection (mask / slice / integer list), written without any field assigned and without slicing the result again: the de-selected records are written too",
+ "C03-f": "an eager table with a List[int] column (BED12 block sizes / starts) that is a row selection still holding a ragged view (t[::-1], t[mask], t[[1,0]], t[1:]): digits and commas go to the wrong records or the write raises",
+ "C17-e": "a supplied .fai whose last row has no final newline: the last digit of the last record's line-width column is cut off, fetches from that record fail or return bytes from the wrong place",
+ "C17-f": "a wrapped FASTA whose last record spans at least one whole read and whose distance from that record's header to the end of the file is an exact multiple of the chunk size, file ending with a newline: the pending last record is dropped",
+ "C02-e": "a float column (or its non-scientific / scientific sub-group within one chunk) in which NO value contains a decimal point and at least one is negative (narrowPeak -1 columns, integer-valued bedGraph, '-2e3'): the sign is lost",
+ "C02-f": "FASTQ or two-line FASTA with CRLF line ends and no terminator after the last line: the last record loses the last character of its last field",
+ "C16-e": "a record without CIGAR operations (unmapped read) followed in the same chunk by a record whose first operation consumes the reference: the CIGAR-less record's interval stop takes over that operation's length",
+ "C16-f": "a reordered lazy selection that keeps the first and the last record of an adjacent block in place (t[[0,2,1,3]]) written to BAM: a 'one adjacent run' fast path writes the records in file order",
+ "C20-f": "a lazily read VCF chunk with genotype columns (VCFMatrixBuffer / VCFBuffer2) written after bnp.replace and then used again: the record-end table is decremented in place on every modified write",
+ "C20-g": "Genome.get_intervals(table).clip() with at least one interval that starts before 0 or stops beyond its chromosome: the clipped coordinates are assigned into the caller's table",
+ "C11-e": "arithmetic on a streamed track with a plain constant to the LEFT of a non-commutative operator (3 - p, 12 // (p + 1), 2 ** p, np.subtract(3, p)): operands swapped in the streamed form only",
+ "C11-f": "genome.read_intervals(f, stream=True).get_location('start').get_windows(window_size=<even>): streamed windows are one base wider than the in-memory ones",
+ "C15-e": "a line with a different column count that is the only record (or one of uniformly deviating records) of a non-first chunk: the line counter is advanced before the column check, the reported line is too high and chunk-size dependent",
+ "C15-f": "two column-count violations in one chunk whose deviations cancel (a 5-column and a 3-column line in a 4-column BED): a total-delimiter shortcut accepts the chunk, a table is delivered or another error surfaces on the wrong line",
+ "C04-e": "a lazily read BAM selected with a non-decreasing integer list that repeats a record and skips records of exactly the same total size (t[[0,0,2]] with equally long records 0 and 1), written unmodified: the span fast path writes records 0,1,2",
+ "C04-f": "a BAM whose uncompressed record stream ends with byte 0x0A (last record without tags and last base quality 10): the last record is taken for incomplete and silently dropped",
+ "C01-f": "read_chunk(s)(min_chunk_size, max_chunk_size=m) on a file with an entry longer than m when exactly m bytes are pending: a zero-byte read is taken for the end of the file, the stream ends early or hands out a truncated entry",
+ "C01-g": "FASTQ or two-line FASTA with CRLF line ends and no terminator after the last line: CRLF is detected at the buffer tail, every entry sharing the last chunk keeps its '\\\\r' (chunk-size dependent)",
 }
 # seeded changes that the checks as they stood at the first intake did NOT catch, and what was changed afterwards
 FIRST_MISSED = {
@@ -57,6 +77,16 @@ FIRST_MISSED = {
  "C16-d": "first intake: missed by C16 (write-back selections were masks and permutations), caught by C05's BAM twin; fixed by a stepped-slice write mode in C16",
  "C12-c": "first intake: missed by C12 and C11 (all generated tables used identifier-array contig columns); fixed by in-memory sources of a user-defined entry type with a `str` contig column (table_strkey)",
  "C12-d": "first intake: missed by C12 and C11 (in-memory tables were only handed to the contig-list consumers); fixed by the pileup_index_memory consumer (streamed pileup indexed with in-memory intervals given to Genome.get_intervals)",
+ "C17-e": "first intake: missed by C17 (the model always rendered the supplied .fai with a final newline); fixed by supplying it without one in a quarter of the model-index runs",
+ "C02-e": "first intake: missed by C02 (every generated negative float had a decimal point); fixed by float columns without any decimal point, negative integers-as-floats and negative dot-less scientific mantissas in the text model",
+ "C20-f": "first intake: missed by C20, C04 and C05 (the genotype-matrix VCF format was not among their sources); fixed by adding it to C20's sources",
+ "C20-g": "first intake: missed by C20 (the API actor's intervals always lay inside the chromosome); fixed by an overhanging-interval argument builder for clip() / extended_to_size().clip()",
+ "C11-e": "first intake: missed by C11 (the only arithmetic computation was track*2+1); fixed by drawing the expression from twelve forms with the constant on either side of commutative and non-commutative operators, for tracks and pileups",
+ "C11-f": "first intake: missed by C11 (no computation used get_location / get_windows); fixed by the location_windows computation (flank and odd / even window_size)",
+ "C15-f": "first intake: missed by C15 (one violation per file, as the property's quantifier says); fixed by the columns_two class: a line with a column more and another with a column fewer in one file",
+ "C04-e": "first intake: missed by C04, C16 and C05 (C04 has no BAM sources; C16's reordering selections were permutations without repeats and records rarely had equal sizes); fixed in C16 by cloned records of equal size and non-decreasing integer-list selections with repeats and skips",
+ "C01-f": "first intake: missed by C01 (max_chunk_size was never passed); fixed by the capped schedule: every k with max_chunk_size = mult*k + add",
+ "C03-e": "first intake: missed by C03 and C20 (C03 wrote slices of its table, which re-select; its tables were never concatenated selections), caught by C04 and C05; fixed in C03 by tables built as concatenated selections of a larger file and by handing the whole table to the writer as the object itself",
 }
 for p in sorted(glob.glob(os.path.join(VERIF, "seeded", "*", "meta.json"))):
     m = json.load(open(p))
